@@ -92,6 +92,7 @@ type c42World struct {
 	// A Transition held at the hook-layer gate (variant "gate").
 	gate         *c42Gate
 	transPending bool
+	dead         bool // the endpoint returned an error: no further calls allowed
 	transCh      chan c42TransRet
 	transBefore  map[string]string
 	transWant    map[string]string
@@ -256,6 +257,9 @@ func (w *c42World) cleanData() {
 func (w *c42World) enabled() []string {
 	rev := w.lt != nil && w.lt.changed && !w.lt.reversed && !w.lt.touched
 	var out []string
+	if w.dead {
+		return nil
+	}
 	if w.transPending {
 		// The one outstanding call is the held Transition: only time, the
 		// outside world and the gate can move.
@@ -500,6 +504,18 @@ func (w *c42World) startTransition() {
 
 func (w *c42World) finishTransition(ret c42TransRet) {
 	w.transPending = false
+	if ret.err != nil && strings.Contains(ret.err.Error(), "removing more entries than exist") {
+		// The endpoint checks the transition against the entry count of its
+		// LATEST scan, which may be a poll scan newer than the snapshot the
+		// consumer planned from (content vanished externally in between). It
+		// then refuses the call with an error, after which the Endpoint
+		// contract forbids further use: the history ends here. Not a matter of
+		// this property.
+		w.dead = true
+		w.tag("endpoint-refused-transition")
+		w.obs("transition %v refused: %v", w.transWant, ret.err)
+		return
+	}
 	if ret.err != nil {
 		w.res.Infra = "Transition error: " + ret.err.Error()
 		return
@@ -599,6 +615,9 @@ func (w *c42World) checkDeadline() {
 // (the pending one, or a fresh one that may pick up a buffered signal) must
 // return no later than c42Bound after the disk/belief last changed.
 func (w *c42World) closing() {
+	if w.dead {
+		return
+	}
 	if w.transPending && w.res.Infra == "" {
 		w.do("release")
 		w.reassess("release")
@@ -630,7 +649,7 @@ func (w *c42World) closing() {
 // outstanding Poll, if any, and Scan - so that the first sentence of the
 // property is also judged for histories that stop right after a transition.
 func (w *c42World) finalScan() {
-	if w.res.Clause != "" || w.res.Infra != "" || w.transPending {
+	if w.res.Clause != "" || w.res.Infra != "" || w.transPending || w.dead {
 		return
 	}
 	if w.lt == nil || !w.lt.changed || w.lt.touched {
